@@ -51,7 +51,12 @@ func AllCfgs() []Cfg {
 }
 
 // Parser builds the real parser of a configuration (extension order as given).
-func Parser(c Cfg) riscv.Parser {
+func Parser(c Cfg) riscv.Parser { return ParserArgs(c, "") }
+
+// ParserArgs builds the parser of configuration c with its extension list passed in the
+// given spelling: "" = ascending without repetition; "rev" = descending; "dup" = every
+// extension twice; "revdup" = descending, twice. The configuration is the same set.
+func ParserArgs(c Cfg, spelling string) riscv.Parser {
 	v := riscv.Variant32
 	if c.XLEN == 64 {
 		v = riscv.Variant64
@@ -62,6 +67,14 @@ func Parser(c Cfg) riscv.Parser {
 	}
 	if c.A {
 		exts = append(exts, riscv.ExtA)
+	}
+	if spelling == "rev" || spelling == "revdup" {
+		for i, j := 0, len(exts)-1; i < j; i, j = i+1, j-1 {
+			exts[i], exts[j] = exts[j], exts[i]
+		}
+	}
+	if spelling == "dup" || spelling == "revdup" {
+		exts = append(exts, exts...)
 	}
 	return riscv.NewParser(v, exts...)
 }
